@@ -177,14 +177,22 @@ func (e *emitter) clientCall(d *def, m *method, clientType string) {
 	e.f("if impl == nil { return }")
 	e.f("impl.order = r.U64()")
 	if m.Sub != nil {
-		// one call chain per method of the subservice
+		// one call chain per method of the subservice. The client of a subservice is a single-use
+		// call object (it is released by the call it makes), so below the first level only one chain
+		// is run per invocation, chosen by the iteration number.
 		sub := m.Sub
 		emitted := false
-		for _, sm := range sub.Methods {
-			if sm.Sub != nil {
-				continue
-			}
+		single := d.Kind == "subservice"
+		if single && len(sub.Methods) > 0 {
+			e.f("switch it %% %d {", len(sub.Methods))
+		}
+		for si, sm := range sub.Methods {
+			// also methods that return a subservice themselves: the chain goes on (service ->
+			// subservice -> subservice -> method) as deep as the implementations reach (depth 2)
 			emitted = true
+			if single {
+				e.f("case %d:", si)
+			}
 			e.f("{")
 			if m.Req != nil {
 				e.f("impl.req%s = %s(r, it%%3)", m.Go, e.ref(m.Req, "C05Gen"))
@@ -195,6 +203,9 @@ func (e *emitter) clientCall(d *def, m *method, clientType string) {
 			}
 			e.f("%s%s(c, r, e, impl.sub%s, call, p, it)", e.ref(sub, "C05Call"), sm.Go, m.Go)
 			e.f("impl.order = r.U64()")
+			e.f("}")
+		}
+		if single && len(sub.Methods) > 0 {
 			e.f("}")
 		}
 		if !emitted {
